@@ -48,6 +48,62 @@ func run(c *harness.Case) {
 	c.Sample(map[string]any{"mask": fmt.Sprintf("%#x", mask), "popcount": pop})
 	detail := map[string]any{"mask": fmt.Sprintf("%#x", mask)}
 
+	// Number <-> mark round trip; the statement does not make it depend on how many bits have been
+	// handed out, so it is checked on a fresh manager and on the allocating one at every prefix.
+	m2 := markbits.NewMarkBitsManager(mask, "verif")
+	limit := uint64(1) << uint(pop)
+	checkOn := func(m2 *markbits.MarkBitsManager, n uint64) bool {
+		mark, err := m2.MapNumberToMark(int(n))
+		c.Count("number_maps", 1)
+		if n >= limit {
+			// The statement only speaks about numbers that fit the mask; what happens to the others
+			// is recorded, not judged.
+			if err == nil {
+				c.Count("oversize_accepted", 1)
+			} else {
+				c.Count("oversize_rejected", 1)
+			}
+			return true
+		}
+		if err != nil {
+			c.Violationf("number-rejected", detail, "mask %#x: number %d fits %d bits but: %v", mask, n, pop, err)
+			return false
+		}
+		if mark&^mask != 0 {
+			c.Violationf("mark-outside-mask", detail, "mask %#x: number %d -> mark %#x outside the mask", mask, n, mark)
+			return false
+		}
+		back, err := m2.MapMarkToNumber(mark)
+		if err != nil || uint64(back) != n {
+			c.Violationf("roundtrip", detail, "mask %#x: number %d -> mark %#x -> %d (%v)", mask, n, mark, back, err)
+			return false
+		}
+		return true
+	}
+	check := func(n uint64) bool { return checkOn(m2, n) }
+	probe := func(m *markbits.MarkBitsManager) bool {
+		c.Count("midalloc_probes", 1)
+		for k := 0; k < 6; k++ {
+			var n uint64
+			switch k {
+			case 0:
+				n = 0
+			case 1:
+				n = limit - 1
+			case 2:
+				n = limit
+				if n > 0xffffffff {
+					n = limit - 1
+				}
+			default:
+				n = uint64(c.R.Int63n(int64(limit)))
+			}
+			if !checkOn(m, n) {
+				return false
+			}
+		}
+		return true
+	}
 	// Allocation: mixed single-bit and block allocations until exhaustion.
 	m := markbits.NewMarkBitsManager(mask, "verif")
 	if m.AvailableMarkBitCount() != pop {
@@ -88,6 +144,9 @@ func run(c *harness.Case) {
 			seen |= b
 			allocated++
 		}
+		if !probe(m) {
+			return
+		}
 		if m.AvailableMarkBitCount() != pop-allocated {
 			c.Violationf("available-count", detail, "mask %#x: after %d allocations AvailableMarkBitCount=%d", mask, allocated, m.AvailableMarkBitCount())
 			return
@@ -108,35 +167,10 @@ func run(c *harness.Case) {
 		}
 		c.Count("exhausted_allocs", 2)
 	}
-
-	// Number <-> mark round trip on a fresh manager.
-	m2 := markbits.NewMarkBitsManager(mask, "verif")
-	limit := uint64(1) << uint(pop)
-	check := func(n uint64) bool {
-		mark, err := m2.MapNumberToMark(int(n))
-		c.Count("number_maps", 1)
-		if n >= limit {
-			if err == nil {
-				c.Violationf("number-too-big-accepted", detail, "mask %#x: number %d does not fit %d bits but mapped to %#x", mask, n, pop, mark)
-				return false
-			}
-			return true
-		}
-		if err != nil {
-			c.Violationf("number-rejected", detail, "mask %#x: number %d fits %d bits but: %v", mask, n, pop, err)
-			return false
-		}
-		if mark&^mask != 0 {
-			c.Violationf("mark-outside-mask", detail, "mask %#x: number %d -> mark %#x outside the mask", mask, n, mark)
-			return false
-		}
-		back, err := m2.MapMarkToNumber(mark)
-		if err != nil || uint64(back) != n {
-			c.Violationf("roundtrip", detail, "mask %#x: number %d -> mark %#x -> %d (%v)", mask, n, mark, back, err)
-			return false
-		}
-		return true
+	if !probe(m) {
+		return
 	}
+
 	if pop <= 12 {
 		for n := uint64(0); n < limit+3; n++ {
 			if !check(n) {
